@@ -27,8 +27,8 @@ def run(args, rep):
     rep.exhaustive = False
     rep.rule = ('programs = initial states of Rename.tla exported by TLC: every scope tree of module + 2 scopes of kinds function / class / comprehension / lambda with '
                 'every admissible use set (load, store, global, nonlocal, param, walrus) of one name (6 484), module + 1 scope with two names (4 156), and a seeded '
-                'sample of module + 2 scopes with two names (433 380; quick 3 000, thorough 80 000 + 80 000 of module + 3 scopes); each under 3 option sets and two '
-                'statement orders; plus 4-deep chains of scopes with one name (70 112; quick 3 000 favouring class-in-class) with both renamings on; a share with other store spellings; non-trivial = distinct programs in which at least one occurrence was respelled')
+                'sample of module + 2 scopes with two names (433 380; quick 3 000, thorough 20 000 + 20 000 of module + 3 scopes); each under 3 option sets and two '
+                'statement orders; plus 4-deep chains of scopes with one name (70 112; quick 3 000, thorough 20 000, favouring class-in-class) with both renamings on; a share with other store spellings; non-trivial = distinct programs in which at least one occurrence was respelled')
     rep.extra.update({'programs_enumerated_by_tlc': total, 'programs_replayed': len(progs) + len(cprogs), 'skipped': skipped, 'skipped_chains': skipped_c, 'chain_programs_replayed': len(cprogs), 'programs_replayed_under_python_2_7': n_py2, 'pep709_skeleton_programs': n709_jobs, 'pep709_rejections': n709,
                       'checker_cmd': 'tlc Rename.tla (MC_Rename_*.cfg); tlc Trace_Rename.tla over ndjson observations'})
     rep.assumptions += ['occurrence correspondence is by unique integer tags in the generated programs',
